@@ -206,7 +206,8 @@ DRIVERS = {
     "alns": (d_alns, [dict(accept="improving", max_iter=2, segment=sg, stop=s) for sg in (1, 2) for s in (0, 1)] + [dict(accept="simulated_annealing", max_iter=2, segment=1, stop=0, max_dev=3), dict(accept="accept_all", max_iter=3, segment=2, stop=0, max_dev=3)], None),
     "evolve": (
         d_evolve,
-        [dict(adaptive=ad, k=1, max_iter=1, stop=0, elite=el) for ad in (False, True) for el in (1, 0)]
+        [dict(adaptive=ad, k=1, max_iter=1, stop=0, elite=1) for ad in (False, True)]
+        + [dict(adaptive=ad, k=1, max_iter=1, stop=0, elite=0, max_dev=4) for ad in (False, True)]
         + [dict(adaptive=ad, k=2, max_iter=2, stop=s, max_dev=3) for ad in (False, True) for s in (0, 1)]
         + [dict(adaptive=False, k=1, max_iter=2, stop=0, elite=0, max_dev=3), dict(adaptive=False, k=2, max_iter=3, stop=0, elite=0, max_dev=2)],
         None,
@@ -247,10 +248,18 @@ def judge(res, f, bounds, minimize, mode):
     return errs
 
 
-def run_driver(r, name, cfg_index, max_execs=400_000):
+THOROUGH = [False]
+
+
+def run_driver(r, name, cfg_index, max_execs=None):
     driver, cfgs, mode = DRIVERS[name]
     cfg = cfgs[cfg_index]
     max_dev = cfg.get("max_dev")
+    if THOROUGH[0]:
+        # thorough: one more deviation where the tree is deviation-bounded, ten times the execution cap
+        max_dev = None if max_dev is None else max_dev + 1
+    if max_execs is None:
+        max_execs = 4_000_000 if THOROUGH[0] else 400_000
 
     def execute(minimize, neg):
         def run(script):
@@ -463,6 +472,7 @@ def _seed_chunk(params, lo, hi):
 
 def jobs(tier, seed):
     js = []
+    THOROUGH[0] = tier == "thorough"
     for name, (drv, cfgs, mode) in DRIVERS.items():
         js.append(Job(f"{name}_choice_tree", len(cfgs), _driver_chunk, name, chunk=1, describe=f"{len(cfgs)} configurations of the {name} driver; complete choice tree per configuration (or up to max_dev deviations where the config says so)"))
     js.append(Job("powell_bfgs_function_family", N_FN_CASES, _fn_chunk, None, chunk=16, describe="powell / bfgs / lbfgs on 8 deterministic functions x 5 starts x min/max x max_iter {1,2,5} x bounds"))
